@@ -302,6 +302,15 @@ class Interp:
                     env[k] = v
                 elif k.startswith("self."):
                     env[k] = UNK
+        # a list handed over is the caller's object: what the callee appends to it in place (`data += ...`, `.extend`, `.append`) is visible to the
+        # caller; a parameter the callee REBINDS (`data = ...`) is its own from then on
+        rebound = {t.id for st_ in ast.walk(fn) if isinstance(st_, ast.Assign) for t in st_.targets if isinstance(t, ast.Name)}
+        for i, p in enumerate(params):
+            if i < len(call.args) and p not in rebound and isinstance(call.args[i], (ast.Name, ast.Attribute)):
+                finals = [o.get(p) for o in outs]
+                if finals and all(repr(x) == repr(finals[0]) for x in finals) and isinstance(finals[0], Seq):
+                    key = call.args[i].id if isinstance(call.args[i], ast.Name) else u(call.args[i])
+                    env[key] = finals[0]
         return rets[0] if rets and all(repr(r) == repr(rets[0]) for r in rets) else UNK
 
     def cond(self, t, env):
